@@ -209,11 +209,13 @@ levels:
 		lv := map[string]int{"depth": d, "frontier_states": len(frontier), "jobs": njobs}
 		type succ struct{ path, fp string }
 		var succs []succ
-		for _, jr := range results {
-			if jr.err == "budget" {
+		for _, jr := range results { // a level cut short by the budget is discarded as a whole
+			if jr.err == "budget" || (jr.err != "" && ctx.Err() != nil) {
 				r.MarkCapped()
 				break levels
 			}
+		}
+		for _, jr := range results {
 			if jr.err != "" {
 				harnessErr = jr.err
 				break levels
@@ -283,8 +285,9 @@ levels:
 		r.HarnessError("%s", harnessErr)
 	}
 	r.EvalN(checks)
-	// violations: the shallowest level at which any occur, in canonical order (deeper levels are not explored:
-	// every deeper history extends a violating one)
+	// violations: only the shallowest BFS level at which any occur is reported (deeper levels are not explored:
+	// every deeper history extends a violating one); grouped by signature (the check without its arguments), at
+	// most 3 histories per signature in canonical order become VIOLATION keys.
 	sort.Slice(viols, func(i, j int) bool {
 		if len(viols[i].path) != len(viols[j].path) {
 			return len(viols[i].path) < len(viols[j].path)
@@ -294,9 +297,15 @@ levels:
 		}
 		return viols[i].check < viols[j].check
 	})
-	for i, v := range viols {
-		if i >= 8 {
-			break
+	perSig := map[string]int{}
+	for _, v := range viols {
+		sig := v.check
+		if i := strings.IndexAny(sig, " ("); i > 0 {
+			sig = sig[:i]
+		}
+		perSig[sig]++
+		if perSig[sig] > 3 || len(perSig) > 12 {
+			continue
 		}
 		r.Violation(fmt.Sprintf("history=%s :: %s", v.path, v.check), map[string]any{"history": v.path, "check": v.check, "detail": v.detail, "keys": keys})
 	}
@@ -315,6 +324,6 @@ levels:
 		exhaustive, map[string]any{
 			"states": states, "transitions": transitions, "traces_validated_against_impl": transitions,
 			"depth": depth, "complete_depth": completeDepth, "levels": perLevel, "api_checks": checks,
-			"keys": keys, "ops_per_state": nops, "violating_observations": len(viols),
+			"keys": keys, "ops_per_state": nops, "violating_observations": len(viols), "violation_signatures": perSig,
 		})
 }
